@@ -526,6 +526,17 @@ func runC12(t *testing.T, e *worlds.Env, tier string) (bool, any) {
 				}
 			}
 		}
+		if mode != 1 && !(declares || !allowed) {
+			// a header that declares no addresses (v1 UNKNOWN, v2 LOCAL / UNSPEC): which addresses
+			// the connection shows then is the library's business, but the placeholders still name
+			// the addresses later handlers and matchers see on the connection - never nothing
+			for _, s := range seen {
+				if s.PHRemote != s.Remote || s.PHLocal != s.Local {
+					fail("placeholders", "after a header that declares no addresses the placeholders are l4.conn.remote_addr=%q l4.conn.local_addr=%q while handlers see remote=%s local=%s on the connection", s.PHRemote, s.PHLocal, s.Remote, s.Local)
+					return
+				}
+			}
+		}
 		if mode == 0 && !aborted && cl.WriteErr == nil && model.WroteAll {
 			// the client delivered header and payload and half-closed: a handler that got the connection
 			// behind the header reads to a clean EOF (a left-over header deadline, a closed or reset
